@@ -268,10 +268,9 @@ def check_forward(old, new, cur, res, old_labels=None, new_labels=None):
     for m in n2[2 + a2][lo2:hi2]:
         under = labels_under(m)
         carried = under & old_labels
-        if m[0] in old_labels:
-            if m[0] not in cov_old:
-                return "foreign-member", {"block": res, "member_label": m[0]}
-        elif carried and not (carried & cov_old):
+        # a member is foreign if it carries old statements but none of the block's own
+        # (a wrapper built by `update` of an enclosing statement keeps that statement's label)
+        if carried and not (carried & cov_old):
             return "foreign-member", {"block": res, "member_label": m[0]}
         kept |= carried & cov_old
     if surviving and not kept:
@@ -326,12 +325,20 @@ def classify(edit, cur, verdict):
                 return "move:block-cursor-moved-to-other-attr:attr-kept"
             if inter and not inside:
                 return "move:block-cursor-overlaps-moved-range:forwarded-through-end-points"
+            if gapin and verdict == "foreign-member":
+                # like `insert`: a block that strictly contains the insertion point grows around
+                # what is put there -- not counted as a deviation
+                return "by-design:block-grows-around-moved-in-statements"
             if gapin:
                 return "move:block-cursor-contains-target-gap:forwarded-through-end-points"
     if k == "nodeReplace":
         p, q = cur[1], edit["p"]
         if len(p) >= len(q) and p[: len(q) - 1] == q[:-1] and p[len(q) - 1][0] == q[-1][0] and p[len(q) - 1][1] != q[-1][1]:
             return "node_replace:sibling-forwards-to-replaced-node"
+    if k == "insert" and cur[0] == "b" and verdict == "foreign-member":
+        gp = gap_path_of(edit["anchor"], edit["ty"])
+        if cur[1] == gp[:-1] and cur[2] == gp[-1][0] and cur[3] < gp[-1][1] < cur[4]:
+            return "by-design:block-grows-around-inserted-statements"
     if k in ("delete", "replace") and cur[0] == "b" and verdict == "empty-block":
         if cur[1] == edit["bp"] and cur[2] == edit["a"] and cur[3] == edit["lo"] and cur[4] == edit["hi"]:
             return "delete:block-cursor-equal-to-deleted-range:forwards-to-empty-block"
@@ -588,11 +595,10 @@ def property_on_atomic(ctx, env, old_tree, new_tree, params, cursors, results, r
         ctx.count("S_%s:%s" % (where, v))
         if v in BAD:
             key = classify(params, cur, v)
-            if key.startswith("move:block-cursor-contains-target-gap") and v == "foreign-member":
-                # like `insert`: a block that strictly contains the insertion point grows around
-                # what is put there -- not counted as a deviation
-                ctx.count("S_by-design:block-grows-around-moved-in-statements")
+            if key.startswith("by-design:"):
+                ctx.count("S_" + key)
                 continue
+            ctx.count("Skey:" + key)
             ctx.violation(key, "atomic %s: %s cursor %s forwards to %s (%s)" % (params["k"], cur[0], cur, res, v),
                           dict(replay, cursor=cur, forwarded=res, verdict=v, detail=detail, edit=params))
 
@@ -1032,6 +1038,8 @@ def run_chain(env, p0, ops, marks, module, explicit, tracer=None, prefix_gap=Non
         if tracer is not None:
             tracer.op = op
         p = getattr(env.S, op)(p, *real_args, **kw)
+        if isinstance(p, tuple):       # extract_subproc returns (proc, subproc)
+            p = p[0]
     return p
 
 
@@ -1072,8 +1080,8 @@ def attribute(env, tracer, p0, pN, pub, what_op):
                 what = {"n": "wrapped-stmt-forwards-to-", "g": "gap-at-wrapped-stmt-forwards-to-", "b": "block-of-wrapped-stmts-forwards-to-"}[ccur[0]]
                 variant = "guard=True" if st["op"] == "add_loop" else "wrapper-nests-block"
                 key = "%s:%s:%s%s" % (st["op"], variant, what, params.get("landing", "?").lower())
-            if key.startswith("move:block-cursor-contains-target-gap") and v == "foreign-member":
-                return None, None
+            if key.startswith("by-design:"):
+                return None, key
             return key, {"step": idx, "step_op": st["op"], "edit": {k: x for k, x in params.items() if k not in ("nodes", "stmts", "ctor")},
                          "cursor_at_step": ccur, "forwarded_at_step": res, "verdict_at_step": v}
     return "%s:composition" % what_op, {"steps": [tracer.steps[i]["kind"] for i, _, _ in tracer.calls]}
@@ -1179,10 +1187,14 @@ def x_case(ctx, env, tracer, module, name, ops, src, p0, marks_by_line, pending)
         ctx.evaluated((name, json.dumps(c), json.dumps(res)), nontrivial=True)
         ctx.count("X_%s" % v)
         if v in BAD:
-            key, info = attribute(env, tracer, p0, pN, pub, opnames)
+            if why == "NotImplementedError":
+                key, info = "%s:forwarding-not-implemented" % opnames, None
+            else:
+                key, info = attribute(env, tracer, p0, pN, pub, opnames)
             if key is None:
-                ctx.count("X_by-design:block-grows-around-moved-in-statements")
+                ctx.count("X_" + info)
                 continue
+            ctx.count("Xkey:%s @%s" % (key, name))
             ctx.violation(key, "%s: %s cursor %s of the input forwards to %s (%s%s)" % (name, c[0], c, res, v, ", " + why if why else ""),
                           dict(replay, cursor=cursor_desc(tree0, c), forwarded=res, verdict=v, exception=why, detail=detail,
                                attribution=info, result=str(pN)))
